@@ -131,10 +131,11 @@ static void enum_kd2(Enum& e) {
       "after the insertions: the full query battery (all 25 points of the grid and its ring, all 100 boxes); after every erase: the full battery for k<=", full_k,
       ", lookups + single-cell boxes + slabs + whole grid for k<=", medium_k));
 #else
-  unsigned lo_k = th ? 6 : 5, hi_k = th ? 6 : 5;
-  for (unsigned k = lo_k; k <= hi_k; k++) enum_level(e, k, false, LOOKUPS, idx);
-  e.complete(cat("every insertion sequence of ", hi_k, " cells of the 3x3 grid (repeats allowed, distinct values) followed by every erase order: full battery after the insertions, ",
-      "size + iteration + lookup of every live entry + absence of every other cell after every erase (build without sanitizers)"));
+  // k=5 with the medium battery, and (thorough) k=6 with lookups only
+  enum_level(e, 5, false, MEDIUM, idx);
+  if (th) enum_level(e, 6, false, LOOKUPS, idx);
+  e.complete(cat("every insertion sequence of 5", th ? " and of 6" : "", " cells of the 3x3 grid (repeats allowed, distinct values) followed by every erase order: full battery after the insertions; ",
+      "after every erase lookups + single-cell boxes + slabs + whole grid (k=5)", th ? ", size + iteration + lookup of every live entry + absence of every other cell (k=6)" : "", " - build without sanitizers"));
 #endif
 }
 
@@ -143,8 +144,8 @@ int main(int argc, char** argv) {
 #ifdef C13_FAST
   checks.push_back({"kd2" C13_SUFFIX, run_kd2, nullptr, 0, 0, 100, enum_kd2});
 #else
-  checks.push_back({"kd2" C13_SUFFIX, run_kd2, gen_history<2>, kGated ? 2500 : 6000, kGated ? 60000 : 300000, 100, kGated ? std::function<void(Enum&)>() : enum_kd2});
-  checks.push_back({"kd3" C13_SUFFIX, run_kd3, gen_history<3>, kGated ? 1500 : 3000, kGated ? 40000 : 150000, 100, nullptr});
+  checks.push_back({"kd2" C13_SUFFIX, run_kd2, gen_history<2>, kGated ? 6000 : 15000, kGated ? 60000 : 300000, 100, kGated ? std::function<void(Enum&)>() : enum_kd2});
+  checks.push_back({"kd3" C13_SUFFIX, run_kd3, gen_history<3>, kGated ? 4000 : 8000, kGated ? 40000 : 150000, 100, nullptr});
 #endif
   return main_(argc, argv, checks);
 }
